@@ -28,13 +28,15 @@ EVIDENCE = {
 
 def gen_script(W, method):
     s = {}
-    s["kind"] = W.choice(["list", "gen", "write", "file", "ufile"])
+    s["kind"] = W.choice(["list", "gen", "write", "file", "ufile", "write+file"])
+    s["cl_name"] = W.choice(["Content-Length", "content-length", "Content-length", "CONTENT-LENGTH"], p0=0.6)
+    s["recall"] = W.chance(0.08)
     s["status"] = W.choice(["200 OK", "204 No Content", "304 Not Modified", "201 Created"], p0=0.6)
     n = W.draw(5)
     s["sizes"] = [W.choice([9, 0, 1, 200, 2500, 9000]) for _ in range(n)]
     if method == "HEAD":
         s["sizes"] = [0 for _ in s["sizes"]][:2]
-        if s["kind"] in ("file", "ufile"):
+        if s["kind"] in ("file", "ufile", "write+file"):
             s["kind"] = "list"
         s["head_equiv"] = W.choice([0, 33, 4000])
     s["cl"] = W.choice(["exact", "none", "larger", "smaller"])
@@ -90,13 +92,24 @@ def make_script(i, s, method):
         hdrs.append(("content-type", "text/plain; charset=utf-8"))
     if s["extra_headers"] >= 2:
         hdrs += [("Set-Cookie", "a=1"), ("set-cookie", "b=2")]
-    script = {"status": s["status"], "headers": hdrs, "cl": cl, "chunks": chunks, "kind": s["kind"],
+    if s["kind"] == "write+file" and not (len(chunks) >= 2 and chunks[0]):
+        s = dict(s)
+        s["kind"] = "write"
+    script = {"status": s["status"], "headers": hdrs, "cl": cl, "chunks": chunks, "kind": s["kind"], "cl_name": s.get("cl_name", "Content-Length"),
               "sr_late": s["sr_late"] and s["kind"] in ("gen", "list"), "block_size": s["block_size"]}
     if s["exc_after_head"] and s["kind"] in ("gen", "list") and len(chunks) >= 2 and chunks[0]:
         script["raise_at"] = (("next", 1), AppExc)
         script["kind"] = "gen"
     elif s.get("exc_before_head"):
         script["raise_at"] = ("call", AppExc)
+    elif s.get("recall") and s["kind"] in ("list", "gen"):
+        # the application first announces something else (incl. a different length) and then replaces it
+        # through the exc_info re-call before any output: only the second announcement counts
+        script["exc_info_recall"] = (s["status"], [(a, b) for a, b in hdrs] + ([(script["cl_name"], str(cl))] if cl is not None else []))
+        script["status"] = "200 OK"
+        script["headers"] = [("X-First", "discarded")]
+        script["cl"] = 77777
+        script["recalled"] = True
     if s["kind"] in ("file", "ufile") and s.get("file_offset") and method != "HEAD":
         off = min(s["file_offset"], total)
         script["file_offset"] = off
@@ -153,10 +166,17 @@ def run_one(tapes, tier, scenario=None):
         return "%s/%s/%s/cl=%s/%s/%s" % (q["version"], q["conn"], q["method"], sp["cl"], p["script"]["kind"], sp["status"][:3])
 
     def v(clause, p, msg, disc=None):
+        if p["script"].get("kind") == "write+file":
+            disc = "write_then_file_wrapper"
+        elif p["script"].get("recalled"):
+            disc = "exc_info_recall:" + (disc or "body")
         res.v(clause, disc or cell(p), "request %d [%s] sizes=%r late=%s: %s" % (p["i"], cell(p), p["q"]["script"]["sizes"], p["script"].get("sr_late"), msg))
 
     if any(r.interim for r in rs):
         res.v("interim", "unexpected", "an interim response appeared although no request asked for one")
+    for p in plan:
+        if p["script"].get("recalled"):
+            p["script_status_override"] = p["q"]["script"]["status"]
     for i, p in enumerate(plan):
         if i >= len(finals):
             if not dead:
@@ -165,7 +185,7 @@ def run_one(tapes, tier, scenario=None):
         r = finals[i]
         q = p["q"]
         sp = p["script"]
-        status = int(sp["status"][:3])
+        status = int((p.get("script_status_override") or sp["status"])[:3])
         failing = "raise_at" in sp
         bodiless = q["method"] == "HEAD" or status in (204, 304)
         if r.status is None:
